@@ -69,37 +69,42 @@ def main():
         if rc1 == 0: print("DEMO DOES NOT FAIL WITH CHANGE\n", out1[-1500:])
         if rc0 != 0: print("DEMO FAILS WITHOUT CHANGE\n", out0[-1500:])
     sh("git checkout -- . && git clean -fd", cwd=wt)
-    # --- 2. run the checks against /repo with the patch applied
-    rc, out = sh("git status --porcelain", cwd="/repo")
-    if out.strip():
-        print("/repo not clean:", out); return 2
-    rc, out = sh(f"git apply {patch}", cwd="/repo")
+    # --- 2. run the checks against a scratch worktree of /repo's HEAD with the patch applied
+    #        (isolated: own worktree, own binary, own output directory; /repo and /verif/evidence are not touched)
+    seed_wt = f"/tmp/seed/{name}"
+    sh(f"git -C /repo worktree remove --force {seed_wt}; rm -rf {seed_wt} {seed_wt}.bin {seed_wt}.out; mkdir -p /tmp/seed")
+    rc, out = sh(f"git -C /repo worktree add --detach {seed_wt} HEAD")
     if rc != 0:
-        print("patch does not apply to /repo:", out); return 2
+        print("cannot create worktree:", out); return 2
+    rc, out = sh(f"git apply {patch}", cwd=seed_wt)
+    if rc != 0:
+        print("patch does not apply to /repo HEAD:", out)
+        sh(f"git -C /repo worktree remove --force {seed_wt}")
+        return 2
+    env2 = f"VERIF_REPO={seed_wt} VERIF_BIN={seed_wt}.bin/vcheck VERIF_OUT={seed_wt}.out"
+    os.makedirs(f"{seed_wt}.bin", exist_ok=True)
     try:
         for p in [prop] + extra_props:
             for tier in tiers:
                 t0 = time.time()
-                rc, out = sh(f"./run.sh {p} {tier}", cwd="/verif", timeout=7200)
+                rc, out = sh(f"{env2} ./run.sh {p} {tier}", cwd="/verif", timeout=7200)
                 viol = [l for l in out.splitlines() if l.startswith("VIOLATION")]
-                meta["checks"][f"{p}:{tier}"] = {"exit": rc, "violations": len(viol), "first": viol[:2], "wall_s": round(time.time() - t0, 1)}
+                meta["checks"][f"{p}:{tier}"] = {"exit": rc, "violations": len(viol), "first": [v[:400] for v in viol[:2]], "wall_s": round(time.time() - t0, 1)}
                 print(f"{name}: {p} {tier}: exit={rc} violations={len(viol)} {(viol[0][:260] if viol else '')}")
                 if rc == 2:
                     print(out[-1500:])
                 if rc == 1:
                     break  # caught; no need for deeper tier
     finally:
-        sh("git checkout -- .", cwd="/repo")
+        sh(f"git -C /repo worktree remove --force {seed_wt}; rm -rf {seed_wt} {seed_wt}.bin {seed_wt}.out; git -C /repo worktree prune")
     caught = any(v["exit"] == 1 for v in meta["checks"].values())
     meta["caught"] = caught
-    # restore evidence files written during the mutated runs
-    sh("git checkout -- evidence 2>/dev/null; rm -f replays/*", cwd="/verif")
     dst = os.path.join("/verif/seeded", name)
     os.makedirs(dst, exist_ok=True)
     shutil.copy(patch, os.path.join(dst, "patch.diff"))
     if demo: shutil.copy(demo, os.path.join(dst, os.path.basename(demo)))
     if os.path.exists(notes): shutil.copy(notes, os.path.join(dst, "notes.md"))
-    meta["ran"] = "tools/seedtest.py: suite + demo in scratch worktree, then `git -C /repo apply`, ./run.sh per tier, `git -C /repo checkout -- .`"
+    meta["ran"] = "tools/seedtest.py: project test suite + demonstration in the sub-agent's scratch worktree (with and without the change); then the patch applied to a fresh scratch worktree of /repo HEAD and ./run.sh <ID> <tier> run against it (VERIF_REPO/VERIF_BIN/VERIF_OUT isolation), worktree removed afterwards"
     json.dump(meta, open(os.path.join(dst, "meta.json"), "w"), indent=1)
     print(f"{name}: caught={caught} confirmed={meta['confirmed']}")
     return 0
